@@ -460,6 +460,73 @@ def live_generators(ctx):
         world.clear_pending()
 
 
+def bundled_otel_spans(ctx):
+    """The span plugin that comes with the agent, on a real OpenTelemetry SDK provider: the span a span tracepoint opens is still
+    open while the function runs and is ended exactly once when the invocation returns / unwinds."""
+    try:
+        from opentelemetry import trace
+        from opentelemetry.sdk.trace import TracerProvider, SpanProcessor
+        from deep.api.plugin.otel import OTelPlugin
+    except BaseException as e:
+        ctx.skip("OpenTelemetry SDK / the bundled plugin is not available here: %r" % (e,))
+        return
+    from deep.api.tracepoint.trigger import LocationAction, Trigger, FunctionLocation, Location
+    events = []
+
+    class Rec(SpanProcessor):
+        def on_start(self, span, parent_context=None):
+            events.append(("start", span.name, threading.get_ident()))
+
+        def on_end(self, span):
+            events.append(("end", span.name, threading.get_ident()))
+    provider = trace.get_tracer_provider()
+    if not isinstance(provider, TracerProvider):
+        provider = TracerProvider()
+        trace.set_tracer_provider(provider)
+        if trace.get_tracer_provider() is not provider:
+            ctx.skip("a tracer provider of the SDK cannot be installed in this process")
+            return
+    provider.add_span_processor(Rec())
+    for how in ("returns", "raises"):
+        world = e2.World(logger=False, spans=0, metrics=0)
+        world.clear_pending()
+        try:
+            world.cfg.plugins = [OTelPlugin(config=world.cfg)]
+        except BaseException as e:
+            ctx.skip("the bundled OTel plugin did not construct: %r" % (e,))
+            return
+        conf = {"fire_count": "-1", "fire_period": "0", "span": "method"}
+        world.install([Trigger(FunctionLocation("m.py", "work", Location.Position.START),
+                               [LocationAction("tp-otel", None, conf, LocationAction.ActionType.Span)])])
+        del events[:]
+        fr = e2.mk_frame("/app/m.py", "work", 5, {"n": 1})
+        world.event(fr, "call")
+        after_call = list(events)
+        fr.f_lineno = 6
+        world.event(fr, "line")
+        during = list(events)
+        if how == "raises":
+            world.event(fr, "exception", (ValueError, ValueError("x"), None))
+        world.event(fr, "return", None if how == "raises" else 3)
+        after = list(events)
+        j = dict(bundled_otel=True, invocation=how, after_call=[e_[0] for e_ in after_call], while_running=[e_[0] for e_ in during],
+                 after_return=[e_[0] for e_ in after])
+        ctx.case(j, nontrivial=True, bucket="bundled-otel")
+        starts = [e_ for e_ in after if e_[0] == "start"]
+        if len(starts) != 1:
+            ctx.fail("a method span tracepoint with the bundled OTel plugin started %d SDK spans for one invocation" % len(starts), j,
+                     kind="history", tag="otel-span-count")
+            continue
+        if any(e_[0] == "end" for e_ in during):
+            ctx.fail("the SDK span was ended while the function was still running (after the call event: %r, after a line: %r): it must "
+                     "stay open until the invocation is over" % ([e_[0] for e_ in after_call], [e_[0] for e_ in during]), j,
+                     kind="history", tag="otel-span-ended-early")
+        elif [e_[0] for e_ in after].count("end") != 1:
+            ctx.fail("the SDK span was ended %d times by the end of the invocation" % [e_[0] for e_ in after].count("end"), j,
+                     kind="history", tag="otel-span-ended-once")
+        world.clear_pending()
+
+
 def run(ctx):
     import logging
     from ..lib.quiet import quiet_logging
@@ -499,6 +566,7 @@ def run(ctx):
     ctx.correspond("callbacks", IMPORTS, "cb_case", "check_cb_case", lits, cj, shard=100)
     ident_reuse(ctx, 60 if ctx.thorough else 25)
     live_generators(ctx)
+    bundled_otel_spans(ctx)
 
 
 def replay(ctx, data):
